@@ -164,7 +164,7 @@ func (p *Prog) callPost(c *ssa.Call, depth int) relSet {
 	}
 	sub := map[string]string{}
 	for i, pa := range callee.Params {
-		sub[pa.Name()] = exprKey(c.Call.Args[i])
+		sub[pa.Name()] = sk(c.Call.Args[i])
 	}
 	out := relSet{}
 	for k := range post {
@@ -304,10 +304,51 @@ func exprKey(v ssa.Value) string {
 	return exprKeyD(v, 0)
 }
 
+// keyMemo makes the key of a value independent of the context it is rendered in:
+// every value has exactly one key; over-long sub-keys are abbreviated by a hash of their full text.
+var keyMemo = map[ssa.Value]string{}
+
+func shortKey(k string) string {
+	if len(k) <= 120 {
+		return k
+	}
+	h := uint32(2166136261)
+	for i := 0; i < len(k); i++ {
+		h ^= uint32(k[i])
+		h *= 16777619
+	}
+	// keep a readable head
+	head := k
+	if len(head) > 60 {
+		head = head[:60]
+	}
+	return fmt.Sprintf("%s…‹%08x›", head, h)
+}
+
 func exprKeyD(v ssa.Value, d int) string {
-	if d > 12 {
+	if v == nil {
+		return "<nil>"
+	}
+	if k, ok := keyMemo[v]; ok {
+		if d > 0 {
+			return shortKey(k)
+		}
+		return k
+	}
+	if d > 40 {
 		return "…"
 	}
+	k := exprKeyRaw(v, d)
+	if _, isCall := v.(*ssa.Call); !isCall || curProg != nil {
+		keyMemo[v] = k
+	}
+	if d > 0 {
+		return shortKey(k)
+	}
+	return k
+}
+
+func exprKeyRaw(v ssa.Value, d int) string {
 	switch v := v.(type) {
 	case nil:
 		return "<nil>"
@@ -377,7 +418,16 @@ func exprKeyD(v ssa.Value, d int) string {
 			}
 			return FuncName(f) + "(" + strings.Join(as, ",") + ")"
 		}
-		return "call:" + v.Name()
+		{
+			var as []string
+			for _, a := range v.Call.Args {
+				as = append(as, exprKeyD(a, d+1))
+			}
+			if v.Call.IsInvoke() {
+				return exprKeyD(v.Call.Value, d+1) + "." + v.Call.Method.Name() + "(" + strings.Join(as, ",") + ")"
+			}
+			return exprKeyD(v.Call.Value, d+1) + "(" + strings.Join(as, ",") + ")"
+		}
 	case *ssa.IndexAddr:
 		return exprKeyD(v.X, d+1) + "[" + exprKeyD(v.Index, d+1) + "]"
 	case *ssa.Index:
@@ -424,8 +474,25 @@ func exprKeyD(v ssa.Value, d int) string {
 		return "phi:" + v.Comment
 	case *ssa.MakeInterface:
 		return exprKeyD(v.X, d+1)
+	case *ssa.ChangeInterface:
+		return exprKeyD(v.X, d+1)
+	case *ssa.TypeAssert:
+		return exprKeyD(v.X, d+1) + ".(" + types.TypeString(v.AssertedType, qualNone) + ")"
+	case *ssa.MakeSlice:
+		return "make(" + types.TypeString(v.Type(), qualNone) + "," + exprKeyD(v.Len, d+1) + ")"
+	case *ssa.MakeMap:
+		return "make(" + types.TypeString(v.Type(), qualNone) + ")"
+	case *ssa.MakeClosure:
+		return "closure:" + exprKeyD(v.Fn, d+1)
+	case *ssa.Next:
+		return "next(" + exprKeyD(v.Iter, d+1) + ")"
+	case *ssa.Range:
+		return "range(" + exprKeyD(v.X, d+1) + ")"
+	case *ssa.Builtin:
+		return v.Name()
 	}
-	return v.Name()
+	// never leak SSA register names (they are renumbered by unrelated edits)
+	return "<" + strings.TrimPrefix(fmt.Sprintf("%T", v), "*ssa.") + ">"
 }
 
 func qualNone(*types.Package) string { return "" }
@@ -683,3 +750,11 @@ func calleeName(in ssa.CallInstruction) string {
 	}
 	return ""
 }
+
+// sk is the canonical (context-independent, length-bounded) key of a value; every
+// operand inside a relation and every hand-composed key uses it.
+func sk(v ssa.Value) string { return shortKey(exprKey(v)) }
+
+func kLen(v ssa.Value) string { return shortKey("len(" + sk(v) + ")") }
+
+func kExt(v ssa.Value, i int) string { return shortKey(sk(v) + "#" + itoa(i)) }
